@@ -131,21 +131,20 @@ def _case(n, k0, k1, k2, k3, mode):
             culprit = 'non-utf8' if 'surrogates not allowed' in r['exc'] else label
             return rt.fail('C16:traceback:%s:%s' % (r['exc'].split(':')[0], culprit),
                            'trash-put %r aborted: %s' % (args, r['exc']))
-        # each argument alone, on a fresh clone, with the reply it would have received
+        # each argument alone, on a fresh clone, with the reply its own prompt received in the list run
         interactive = '-i' in opts
         any_failed = False
-        reply_i = 0
+        import re
+        asked = re.findall(r"trash-put: trash [^']*'((?:[^']|'(?!\? ))*)'\? ", r['out'])
+        reply_for = {}
+        for qi, ap in enumerate(asked):
+            reply_for.setdefault(ap, []).append(stdin[qi] if qi < len(stdin) else None)
         for pos, (kind, a, p) in enumerate(zip(kinds, args, paths)):
             dup = AK[kind] == 'duplicate-of-first' and pos > 0
             my_stdin = []
-            if interactive:
-                # trash-put asks only for existing, accessible entries
-                exists_now = p is not None and not dup and AK[kind] not in ('dot', 'dotdot-slash')
-                if AK[kind] in ('dot',):
-                    exists_now = False
-                if exists_now:
-                    my_stdin = [stdin[reply_i]] if reply_i < len(stdin) else []
-                    reply_i += 1
+            if interactive and reply_for.get(a):
+                rp = reply_for[a].pop(0)
+                my_stdin = [] if rp is None else [rp]
             if dup:
                 # the second occurrence must simply fail as nonexistent (or be ignored under -f)
                 expect_fail = '-f' not in opts and classify(before, after, paths[0]) == 'trashed'
